@@ -19,8 +19,8 @@ Definition model_key_fields : list string :=
    "line int";
    "name string"].
 Definition model_key_literals : list string :=
-  ["pkgPath := res.Package.PkgPath; base := filepath.Base(obj.Position.Filename); line := obj.Position.Line; name := obj.Name";
-   "pkgPath := res.Package.PkgPath; base := filepath.Base(obj.Position.Filename); line := obj.Position.Line; name := obj.Name"].
+  ["in lint: pkgPath := res.Package.PkgPath; base := filepath.Base(obj.Position.Filename); line := obj.Position.Line; name := obj.Name";
+   "in lint: pkgPath := res.Package.PkgPath; base := filepath.Base(obj.Position.Filename); line := obj.Position.Line; name := obj.Name"].
 (* step_used / step_unused / merge_impl in C17_Merge.v *)
 Definition model_merge_shape : list string :=
   ["range resd.Unused.Used";
@@ -64,6 +64,13 @@ Definition model_color_shape : list string :=
    "assign res.Quiet = append(res.Quiet, n.obj)";
    "assign res.Unused = append(res.Unused, n.obj)";
    "return res"].
+
+(* the package component of the key is the package path *)
+Definition ends_with (suffix s : string) : bool :=
+  let n := String.length s in let k := String.length suffix in
+  Nat.leb k n && String.eqb (substring (n - k) k s) suffix.
+Definition key_pkg_is_path (components : list string) : bool :=
+  match components with [] => false | _ => forallb (ends_with ".PkgPath") components end.
 
 Definition shape_ok (key_fields key_literals merge_shape color_shape : list string) : bool :=
   lseqb key_fields model_key_fields && lseqb key_literals model_key_literals &&
